@@ -123,7 +123,7 @@ PROPS['C06'] = {
     'kani': {'quick': BLOOM_K[1:] + CMS_MERGE[:1] + HLL_MERGE + QF_UNION_QUICK, 'thorough': CMS_MERGE[1:] + QF_UNION_THOROUGH},
     'explanation': 'merge contracts over the abstract view, Verus (unbounded): Bloom union = bitwise or, Cuckoo union = class-wise sum of multisets with full rollback on Err, CMS merge = cell-wise checked sum, HLL merge = register-wise max, Quotient union Err => restored, Ok => abstract set == union of both abstract sets and the canonical-layout invariant holds again (unit quotient_exact: cluster decoding with the pending-quotient queue proved against the counting lemma; `pop_front().unwrap()` and the shift-chain panic proved unreachable). Bounded (Kani, counterexample engine): Quotient union Ok => canonical layout of A u B, Err iff it does not fit. Commutativity/associativity/idempotence follow from or / + / max / set union on the views.',
     'trusted_base': COMMON_TRUST + [HASH_TRUST, INTVEC_TRUST, FBS_TRUST, PANIC_ASSERTS],
-    'assumptions': ['"other operand unchanged" is the &Self borrow; the five types hold no interior mutability', 'quotient filter: "Err iff the union does not fit" is only checked bounded (Kani); the Verus contract proves Err => restored and Ok => exact union'],
+    'assumptions': ['"other operand unchanged" is the &Self borrow; the five types hold no interior mutability', 'quotient filter: Err iff the union of the two class sets has more elements than slots is proved (finite-set cardinality, lemma_union_overflow); cuckoo: Err only when some insert fails after 500 kicks (no characterisation of fit)'],
     'not_decided': [],
 }
 
@@ -188,9 +188,9 @@ PROPS['C13'] = {
     'level': 'proof',
     'verus_units': ['quotient', 'quotient_exact'],
     'kani': {'quick': QF_QUICK + QF_QR + QF_UNION_QUICK[-1:], 'thorough': QF_THOROUGH + QF_UNION_THOROUGH[:1]},
-    'explanation': 'Verus proof, unbounded in table size, remainder width and history (unit quotient_exact, 100+ obligations): the canonical layout is captured by a ghost per-slot displacement d (slot_ok: shifted <=> d > 0, continuation <=> same home as predecessor, remainders strictly increasing inside a run; occupied <=> some element has that home). Key lemma: along a cluster the number of run starts equals the number of occupied buckets up to the home (lemma_runs), which makes scan()\'s counting walk find exactly the run of the quotient; the layout d is unique (lemma_canon_unique), so the abstract set mem(v, q, r) is well defined. Proved on the real text: scan: present == mem, plus the local insertion-point facts; insert_internal: Ok(false) iff known (state unchanged), Err iff new and len == 2^bq (state unchanged), Ok(true) iff new below capacity: len + 1, the new state is canonical and mem\' == mem + {(q, r)} for EVERY class (nothing lost, nothing invented), "infinite loop detected" unreachable; query == mem of the element\'s class; len == number of used slots, and distinct used slots hold distinct classes (lemma_class_inj); clear / constructor => empty set with the full invariant; union Ok => exact set union. calc_quotient_remainder returns exactly the low bq+br hash bits split at br (bit-vector proof). Client step functions (step_insert_query, step_fresh, step_clear_query, step_union_query) state the property over these contracts for one step of an arbitrary history. Kani one-step harnesses against an independent canonical-layout encoder stay as counterexample engine (bounded: 2 slots quick, 4 slots thorough).',
+    'explanation': 'Verus proof, unbounded in table size, remainder width and history (unit quotient_exact, 100+ obligations): the canonical layout is captured by a ghost per-slot displacement d (slot_ok: shifted <=> d > 0, continuation <=> same home as predecessor, remainders strictly increasing inside a run; occupied <=> some element has that home). Key lemma: along a cluster the number of run starts equals the number of occupied buckets up to the home (lemma_runs), which makes scan()\'s counting walk find exactly the run of the quotient; the layout d is unique (lemma_canon_unique), so the abstract set mem(v, q, r) is well defined. Proved on the real text: scan: present == mem, plus the local insertion-point facts; insert_internal: Ok(false) iff known (state unchanged), Err iff new and len == 2^bq (state unchanged), Ok(true) iff new below capacity: len + 1, the new state is canonical and mem\' == mem + {(q, r)} for EVERY class (nothing lost, nothing invented), "infinite loop detected" unreachable; query == mem of the element\'s class; len == number of used slots == cardinality of the finite set of stored classes aset() (lemma_class_inj, lemma_cset); clear / constructor => empty set with the full invariant; union Ok => exact set union, Err <=> the union has more classes than slots. calc_quotient_remainder returns exactly the low bq+br hash bits split at br (bit-vector proof). Client step functions (step_insert_query, step_fresh, step_clear_query, step_union_query) state the property over these contracts for one step of an arbitrary history. Kani one-step harnesses against an independent canonical-layout encoder stay as counterexample engine (bounded: 2 slots quick, 4 slots thorough).',
     'trusted_base': COMMON_TRUST + [HASH_TRUST, INTVEC_TRUST, FBS_TRUST, 'vstd VecDeque push_back/pop_front specs', 'the 40-line canonical-layout encoder in kani/harness/filters__quotientfilter.rs (independent oracle of the bounded cross-check only)'],
-    'assumptions': ['induction over histories is by the re-established invariant inv(): every public operation requires and ensures it; the induction itself is not a mechanised statement', 'len() == number of DISTINCT classes: proved as len == number of used slots + injectivity of slot -> class; no cardinality-of-a-set statement is mechanised'],
+    'assumptions': ['induction over histories is by the re-established invariant inv(): every public operation requires and ensures it; the induction itself is not a mechanised statement'],
     'not_decided': [],
 }
 
@@ -294,7 +294,7 @@ MANIFEST_TEXT = {
                'Trusted: hashing model, the Counter contract trait standing for the num_traits bounds, iterator chains rewritten to the loops they denote (std iterator semantics), overflow panics excluded by precondition.',
                'Verus contracts on extracted real functions + history lemma; Kani contract harnesses as counterexample engine'),
     'C06': _mt('merge contracts over abstract views: unbounded Verus proofs for Bloom, Cuckoo, CMS, HLL and the quotient filter (Ok => exact union of the abstract sets, Err => restored). Kani harnesses as counterexample engine.',
-               'Trusted: stubs, hashing model, iterator-chain rewrites; QF "Err iff it does not fit" only bounded (Kani).', 'Verus contracts on extracted real functions + Kani contract harnesses (counterexample engine)'),
+               'Trusted: stubs, hashing model, iterator-chain rewrites.', 'Verus contracts on extracted real functions + Kani contract harnesses (counterexample engine)'),
     'C09': _mt('Verus proof that the real LossyCounter::add preserves the Lossy Counting invariant for every ghost true-count function; guarantee lemmas on top.',
                'Trusted: vstd HashMap/entry specs, std drain/filter/collect semantics (predicate text captured from source), f64 formulas for epsilon/bound taken in real arithmetic. Harmonic table bound not decided.',
                'Verus contracts on the extracted real add() + guarantee lemmas'),
@@ -307,7 +307,7 @@ MANIFEST_TEXT = {
     'C12': _mt('Unbounded Verus proofs for both filters: every failing insert/union leaves (cuckoo: restores) every array and the counter; Kani harnesses as counterexample engine.',
                'Trusted: IntVector/FixedBitSet stubs, hashing/RNG models; two canonical-layout-dependent panic sites of the quotient filter modelled as diverging.', 'Verus contracts on extracted real functions + Kani contract harnesses'),
     'C13': _mt('Unbounded Verus proof: the canonical-layout invariant (ghost displacement per slot, run-counting lemma, layout uniqueness) is inductive over the real scan/insert_internal/insert/union/clear; query == abstract membership; Ok(true)/Ok(false)/Err exactly as stated; len counts used slots which hold distinct classes. Kani one-step harnesses against an independent encoder as counterexample engine.',
-               'Trusted: IntVector/FixedBitSet/VecDeque stubs, hashing model; history induction by re-established invariant; no mechanised set cardinality.', 'Verus contracts on extracted real functions + Kani contract harnesses (counterexample engine)'),
+               'Trusted: IntVector/FixedBitSet/VecDeque stubs, hashing model; history induction by re-established invariant.', 'Verus contracts on extracted real functions + Kani contract harnesses (counterexample engine)'),
     'C14': _mt('Unbounded Verus proof that CuckooFilter is an exact multiset over fingerprint classes (eviction-chain invariant through all kicks).',
                'Trusted: IntVector stub, hashing/RNG models, 64-bit usize.', 'Verus contracts on extracted real functions'),
     'C15': _mt('Bounded: bit-precise Kani harnesses on the real quantile/cdf from arbitrary well-formed small digests.',
